@@ -184,6 +184,82 @@ func runC03(p *core.Program, r *core.Report) {
 		}
 	}
 
+	// Push returns only when the scan over its arguments is exhausted (no side path that handles
+	// the arguments differently)
+	for _, b := range fPush.Blocks {
+		if rt, ok := b.Instrs[len(b.Instrs)-1].(*ssa.Return); ok {
+			c.ob("PT5", p.FuncName(fPush), "returns only after every argument was pushed", p.InstrPos(rt), !path.InCycle(b) && onlyViaLoopHeader(fPush, b) && loopDepth(fPush, b) == 0 && dominatedByALoopHeader(fPush, b),
+				"Push can return on a path that does not run through the per-argument loop: some calls insert their arguments differently (a bulk path) and the per-element rules do not cover them")
+		}
+	}
+	// who writes the heap array and who re-sifts: only the functions the rules are phrased over
+	{
+		writers := map[string]bool{"Push": true, "Pop": true, "Delete": true, "Clear": true, "Meld": true, "NewHeap": true, "FromSlice": true}
+		sifters := map[string]bool{"Push": true, "Pop": true, "Delete": true, "Convert": true, "Sort": true, "moveDown": true, "moveUp": true, "FromSlice": true}
+		for _, f := range all {
+			fname := p.FuncName(f)
+			for _, st := range fieldStores([]*ssa.Function{f}, "Heap", "data") {
+				c.ob("AG1", fname, "writes the heap array", p.InstrPos(st), writers[f.Name()], "h.data is replaced by a function the conservation rules do not cover")
+			}
+			for _, in := range path.Instrs(f) {
+				call, ok := in.(ssa.CallInstruction)
+				if !ok {
+					continue
+				}
+				cal := path.StaticCallee(call)
+				if cal != nil && (cal == moveDown || cal == moveUp || cal == swapFn) {
+					c.ob("AG1", fname, "re-sifts / swaps", p.InstrPos(in), sifters[f.Name()], "the heap array is reordered by a function the structure rules do not cover")
+				}
+			}
+		}
+	}
+	// getIndex identifies the element by equality, at the index it returns
+	if getIndex != nil {
+		fn := getIndex
+		fname := p.FuncName(fn)
+		sl, val := ssa.Value(fn.Params[1]), ssa.Value(fn.Params[2])
+		x := newPathCtx(p)
+		for _, b := range fn.Blocks {
+			rt, ok := b.Instrs[len(b.Instrs)-1].(*ssa.Return)
+			if !ok || len(rt.Results) != 2 {
+				continue
+			}
+			bc, isC := path.BoolConst(rt.Results[1])
+			if !isC {
+				c.und("PV2", fname, "result", p.InstrPos(rt), "found flag is not a constant per path")
+				continue
+			}
+			if !bc {
+				c.ob("PV2", fname, "absence only after the whole scan", p.InstrPos(rt), !path.InCycle(b) && onlyViaLoopHeader(fn, b), "getIndex reports absence before every element was compared")
+				continue
+			}
+			idx := rt.Results[0]
+			okEq := guardedBy(fn, b, func(cd path.Cond, truth bool) bool {
+				if normCmp(cd.Op, truth) != "==" {
+					return false
+				}
+				el, other := cd.X, cd.Y
+				if other != val {
+					el, other = cd.Y, cd.X
+				}
+				if other != val {
+					return false
+				}
+				u, ok := el.(*ssa.UnOp)
+				if !ok {
+					return false
+				}
+				ia, ok := u.X.(*ssa.IndexAddr)
+				return ok && ia.X == sl && ia.Index == idx
+			})
+			okScan := false
+			if sc, ok := classifyScan(x, fn, idx, sl); ok && sc.dir == +1 {
+				okScan = true
+			}
+			c.ob("PV2", fname, "found index holds a value equal to the probe", p.InstrPos(rt), okEq && okScan, "getIndex returns (i, true) on a path not dominated by slice[i] == val in a complete forward scan: Delete can remove a different element than the one named (e.g. one that merely ties under the comparator)")
+		}
+	}
+
 	// ---------------- Pop
 	{
 		fn := fPop
@@ -864,4 +940,14 @@ func runC03(p *core.Program, r *core.Report) {
 			c.ob("AG6", p.FuncName(fClear), "Clear empties the array", p.InstrPos(st), x.path(st.Val) == "h.data[:0]" || path.IsNil(st.Val), "Clear must store an empty array")
 		}
 	}
+}
+
+// dominatedByALoopHeader: some natural-loop header dominates b (b lies after a loop).
+func dominatedByALoopHeader(fn *ssa.Function, b *ssa.BasicBlock) bool {
+	for _, h := range fn.Blocks {
+		if l := path.NaturalLoop(h); len(l) > 0 && h.Dominates(b) {
+			return true
+		}
+	}
+	return false
 }
